@@ -108,7 +108,8 @@ def check_append(rec, out, where):
 # ----------------------------------------------------------------------------------------------
 # generators: trees and requests
 # ----------------------------------------------------------------------------------------------
-def gen_tree(rng, kind='boss', layout='tree', allfib=False, decoy=False, photoplate='auto', small=False):
+def gen_tree(rng, kind='boss', layout='tree', allfib=False, decoy=False, photoplate='auto', small=False,
+             shared_solution=None):
     sdss = kind == 'sdss'
     lo, hi = (51600, 55024) if sdss else (55025, 59990)
     nplates = rng.randint(2, 3 if (allfib and sdss) else 5)
@@ -143,6 +144,20 @@ def gen_tree(rng, kind='boss', layout='tree', allfib=False, decoy=False, photopl
             c1 = rng.choice([1e-4, 1e-4, 2e-4, 1.5e-4])
             files.append([p, m, nfib, npix, c0, c1])
     rng.shuffle(files)
+    # several plate-MJDs with the SAME COEFF0/COEFF1 but different pixel counts (file order is random, so the shorter
+    # one comes first or last in plate-MJD order): anything keyed on the wavelength solution must still respect NAXIS1
+    if shared_solution is None:
+        shared_solution = rng.random() < 0.3
+    if shared_solution:
+        sols = [(f[4], f[5]) for f in files[:rng.choice([1, 1, 2])]]
+        for f in files:
+            f[4], f[5] = rng.choice(sols)
+        if not (allfib and sdss):
+            used = set()
+            for f in files:
+                while f[3] in used:
+                    f[3] = rng.randint(4, 60)
+                used.add(f[3])
     if photoplate == 'auto':
         photoplate = rng.choice(['match', 'match', None]) if sdss else rng.choice(['plate', 'plate', None, 'match'])
     run2d = rng.choice(['26', '103', '104']) if sdss else rng.choice(['v5_7_0', 'v5_4_45', 'v5_10_0', 'test'])
@@ -151,9 +166,11 @@ def gen_tree(rng, kind='boss', layout='tree', allfib=False, decoy=False, photopl
             'photoplate': photoplate, 'platelist': bool(allfib and not sdss), 'plates': files, 'decoy': None}
     if decoy:
         # same plate-MJD files (so that every lookup succeeds) with other shapes and another id range
+        # (a 'twin': requests may also be aimed at it, alternating with the main tree in one process); half of its
+        # files keep the wavelength solution of their namesake, all differ in pixel count
         tree['decoy'] = [[f[0], f[1], (640 if sdss else f[2] + 3) if allfib else rng.randint(40, 44),
-                          64 if not (allfib and sdss) else 8,
-                          round(f[4] + 0.01, 4), f[5]] for f in files]
+                          rng.choice([x for x in range(4, 65) if x != f[3]]) if not (allfib and sdss) else 8,
+                          rng.choice([f[4], round(f[4] + 0.01, 4)]), f[5]] for f in files]
     return tree
 
 
@@ -168,7 +185,7 @@ def _pick_fibre(rng, nfib):
     return rng.choice([1, nfib, rng.randint(1, nfib), rng.randint(1, nfib), rng.randint(1, nfib)])
 
 
-def gen_request(rng, tree, style, kw=(), shadow='good'):
+def gen_request(rng, tree, style, kw=(), shadow='good', per_file=1, min_n=1):
     files = tree['plates']
     lat = _latest(files)
     latest_files = [f for f in files if f[1] == lat[f[0]]]
@@ -180,8 +197,8 @@ def gen_request(rng, tree, style, kw=(), shadow='good'):
         k = min(len(pool), rng.choice([1, 2, 3, 3, 4, 5, 5]))
         chosen = rng.sample(pool, k)
         n = rng.randint(k, rng.choice([k, 8, 30]) if k <= 8 else k)
-        n = max(n, k)
-        rows = [(f, _pick_fibre(rng, f[2])) for f in chosen]
+        n = max(n, k * per_file, min_n)
+        rows = [(f, _pick_fibre(rng, f[2])) for f in chosen for _ in range(per_file)]
         while len(rows) < n:
             if rows and rng.random() < 0.2:
                 rows.append(rng.choice(rows))            # exact repetition of a request
@@ -316,6 +333,12 @@ class C16(Check):
             'vector fibre, vector plate + scalar fibre, all scalar, length-1 vectors, mjd=None, fiber=None, Python '
             'ints / lists / numpy scalars / arrays of int16..uint64; files located through the environment, through '
             'topdir/run2d/run1d keywords (environment unset or pointing at a decoy tree with the same plates) or path=. '
+            'State across calls: request vectors (ndarrays of int16/32/64, uint16/32/64 - int32 is readspec\'s own dtype - and '
+            'lists) materialised once and handed to 2-4 calls (same request with other keywords; same fibre vector with the '
+            'next plate; same plate/MJD vectors with other fibres) must be byte-identical after every call and every call must '
+            'still satisfy the oracle; two trees with the same plate numbers and MJDs (other lengths, ids, partly the same '
+            'COEFF0/COEFF1) are read alternately in one process; trees in which several plate-MJDs share COEFF0/COEFF1 but differ '
+            'in pixel count, shorter first and shorter last, with >= 2 rows per file.  '
             'spec_append: every call readspec makes, plus direct calls and chains with shifts of both signs up to '
             'beyond the width, empty blocks, four dtypes.  Non-trivial (readspec): a request naming >= 3 distinct '
             'plate-MJD files in an order that is not file order; (spec_append): non-zero shift with unequal widths; '
@@ -335,7 +358,12 @@ class C16(Check):
                          'req_all_fibres', 'req_all_fibres_boss', 'req_kw_override', 'req_env_decoy', 'req_env_unset',
                          'req_path', 'req_sdss_redux', 'req_repeated_rows', 'zans_rows', 'tsobj_rows',
                          'tsobj_rows_match_location', 'append_calls_inside_readspec', 'append_shift_pos',
-                         'append_shift_neg', 'append_pad_right', 'table_cells_2d')
+                         'append_shift_neg', 'append_pad_right', 'table_cells_2d',
+                         # state that must not go stale between calls / between files of one call
+                         'arrays_checked_unmodified', 'req_reused_array', 'req_reused_array_third_call',
+                         'reused_fiber_array_i2', 'reused_fiber_array_i4', 'reused_fiber_array_i8', 'reused_fiber_array_u8',
+                         'reused_plate_array_i4', 'reused_mjd_array_i4', 'req_twin_tree',
+                         'req_same_solution_shorter_later_multirow', 'req_same_solution_longer_later')
 
     # ------------------------------------------------------------------ setup
     def setup(self):
@@ -372,13 +400,16 @@ class C16(Check):
 
     def budget(self, tier):
         q = tier == 'quick'
-        return {'scrambled': 40 if q else 800,
-                'latest': 20 if q else 400,
-                'conventions': 24 if q else 400,
+        return {'scrambled': 28 if q else 800,
+                'latest': 16 if q else 400,
+                'conventions': 20 if q else 400,
                 'override': 20 if q else 320,
                 'path': 12 if q else 200,
                 'sdss': 12 if q else 200,
                 'allfibres': 12 if q else 160,
+                'shared_grid': 12 if q else 240,
+                'reuse': 28 if q else 420,
+                'twin': 8 if q else 160,
                 'append': 1500 if q else 30000,
                 'append_chain': 300 if q else 6000}
 
@@ -424,6 +455,28 @@ class C16(Check):
             tree = gen_tree(rng, 'sdss')
             reqs = [gen_request(rng, tree, rng.choice(['vvv', 'vvv', 'vNv', 'svv', 'vvs']), kw=rng.choice(kwsets))
                     for _ in range(6)]
+        elif cls == 'shared_grid':
+            # several plate-MJDs on one wavelength solution with different lengths, >= 2 rows from each file per call
+            tree = gen_tree(rng, rng.choice(['boss', 'boss', 'sdss']), shared_solution=True)
+            styles = ['vvv', 'vvv', 'vNv', 'vvv', rng.choice(['vvs', 'vNs']), 'vvv']
+            reqs = [gen_request(rng, tree, st, kw=rng.choice(kwsets), per_file=rng.choice([2, 2, 3])) for st in styles]
+        elif cls == 'reuse':
+            tree, reqs = self.gen_reuse(rng, i, kwsets)
+        elif cls == 'twin':
+            # two trees with the same plate numbers and MJDs read alternately in one process
+            tree = gen_tree(rng, 'sdss' if i % 4 == 3 else 'boss', decoy=True, small=True,
+                            shared_solution=rng.random() < 0.5)
+            full = ('topdir', 'run2d', 'run1d')
+            reqs = []
+            for k in range(4):
+                st = rng.choice(['vvv', 'vvv', 'vNv', 'svv', 'sNv', 'vvs'])
+                a = gen_request(rng, tree, st, kw=rng.choice([(), (), full, ('topdir',)]), shadow='decoy',
+                                per_file=rng.choice([1, 2]))
+                b = dict(a)
+                b['kw'] = list(rng.choice([(), (), full, ('topdir',)]))
+                order = ['main', 'twin'] if (i + k) % 2 == 0 else ['twin', 'main']
+                a['target'], b['target'] = order
+                reqs += [a, b]
         elif cls == 'allfibres':
             kind = 'sdss' if i % 2 == 0 else 'boss'
             tree = gen_tree(rng, kind, allfib=True, small=True)
@@ -433,6 +486,60 @@ class C16(Check):
         else:
             raise ValueError(cls)
         return {'kind': 'readspec', 'tree': tree, 'requests': reqs}
+
+    def gen_reuse(self, rng, i, kwsets):
+        """request vectors that are materialised once and handed to two or three readspec calls"""
+        forms = ['array:' + d for d in VEC_DTYPES] + ['list']
+        fform = forms[i % len(forms)]                 # every dtype in turn, incl. int32 (readspec's own) and lists
+        variant = (i // len(forms)) % 3
+        tree = gen_tree(rng, 'sdss' if i % 5 == 4 else 'boss', small=rng.random() < 0.5)
+        files = tree['plates']
+        maxm = max(f[1] for f in files)
+
+        def aform(maxval=0):
+            return rng.choice(['array:' + d for d in VEC_DTYPES if not (d == 'i2' and maxval > 32767)] + ['list'])
+        reqs = []
+        if variant == 0:
+            # the same request, same objects, three times (other keywords each time)
+            base = gen_request(rng, tree, rng.choice(['vvv', 'vvv', 'vNv']), per_file=rng.choice([1, 2]), min_n=2)
+            base['fform'], base['pform'] = fform, aform()
+            base['mform'] = aform(maxm)
+            for k in range(3):
+                r = dict(base)
+                r['kw'] = list(rng.choice(kwsets))
+                r['share'] = {'plate': 'p', 'mjd': 'm', 'fiber': 'f'}
+                reqs.append(r)
+        elif variant == 1:
+            # one fibre vector, the next plate each time (scalar plate), then once more with the first plate
+            chosen = [rng.choice(files) for _ in range(3)]
+            if len(files) >= 3:
+                chosen = rng.sample(files, 3)
+            chosen.append(chosen[0])
+            fmax = min(f[2] for f in chosen)
+            fib = [_pick_fibre(rng, fmax) for _ in range(rng.randint(2, 12))]
+            lat = _latest(files)
+            for f in chosen:
+                nomjd = f[1] == lat[f[0]] and rng.random() < 0.4
+                reqs.append({'style': 'sNv' if nomjd else 'svv', 'kw': list(rng.choice(kwsets)), 'shadow': 'good',
+                             'plate': f[0], 'mjd': None if nomjd else f[1], 'fiber': fib,
+                             'pform': scalar_form(rng), 'mform': scalar_form(rng, maxm), 'fform': fform,
+                             'share': {'fiber': 'f'}})
+        else:
+            # plate and MJD vectors shared, another fibre vector each time; the fibre vectors are reused crosswise
+            base = gen_request(rng, tree, 'vvv', per_file=rng.choice([1, 2]), min_n=2)
+            base['pform'], base['mform'] = fform, (fform if fform != 'array:i2' else 'array:i4')
+            rows = {(f[0], f[1]): f[2] for f in files}
+            fibs = []
+            for k in range(2):
+                fibs.append([_pick_fibre(rng, rows[(p, m)]) for p, m in zip(base['plate'], base['mjd'])])
+            for k in (0, 1, 0, 1):
+                r = dict(base)
+                r['fiber'] = fibs[k]
+                r['fform'] = 'array:i4' if k == 0 else fform
+                r['kw'] = list(rng.choice(kwsets))
+                r['share'] = {'plate': 'p', 'mjd': 'm', 'fiber': 'f%d' % k}
+                reqs.append(r)
+        return tree, reqs
 
     def gen_append(self, rng, nblocks):
         dt = rng.choice(['f4', 'f4', 'i4', 'f8', 'i8'])
@@ -478,8 +585,9 @@ class C16(Check):
             if t.get('decoy'):
                 decoy = T.write_tree(os.path.join(root, 'decoy'), [tuple(p) for p in t['decoy']],
                                      file_base=DECOY_BASE, **common)
+            shared = {}        # request components materialised once and handed to several calls (key -> object)
             for qi, req in enumerate(case['requests']):
-                self.one_request(t, desc, decoy, req, qi, out)
+                self.one_request(t, desc, decoy, req, qi, out, shared)
         finally:
             shutil.rmtree(root, ignore_errors=True)
 
@@ -503,20 +611,71 @@ class C16(Check):
                 env[var] = bad
         return env, kw
 
-    def one_request(self, t, desc, decoy, req, qi, out):
+    def one_request(self, t, desc, decoy, req, qi, out, shared=None):
         S = self.S
+        shared = {} if shared is None else shared
+        if req.get('target') == 'twin':
+            # aimed at the second tree of the case (same plate numbers and MJDs, other shapes / solutions / ids)
+            t = dict(t, plates=t['decoy'])
+            desc, decoy = decoy, desc
+            out.count('req_twin_tree')
         trip, ordered = expand(t, req)
         n = len(trip)
         env, kw = self.build_env(t, desc, decoy, req)
-        args = [mat(req['plate'], req['pform'])]
-        if req['mjd'] is not None:
-            kw['mjd'] = mat(req['mjd'], req['mform'])
-        if req['fiber'] is not None:
-            kw['fiber'] = mat(req['fiber'], req['fform'])
-        ctx = dict(request=qi, style=req['style'], kw=req['kw'], shadow=req['shadow'])
+        ctx = dict(request=qi, style=req['style'], kw=req['kw'], shadow=req['shadow'], target=req.get('target', 'main'))
+        # ---- materialise the request; components named in req['share'] are the SAME objects in several calls
+        comp = {}
+        for name, form in (('plate', 'pform'), ('mjd', 'mform'), ('fiber', 'fform')):
+            if req[name] is None:
+                continue
+            key = (req.get('share') or {}).get(name)
+            if key is not None and key in shared:
+                obj, uses = shared[key]
+                shared[key] = (obj, uses + 1)
+                out.count('req_reused_component')
+                if isinstance(obj, np.ndarray):
+                    out.count('req_reused_array')
+                    out.count('reused_%s_array_%s' % (name, obj.dtype.str.lstrip('<>|=')))
+                    if uses >= 2:
+                        out.count('req_reused_array_third_call')
+            else:
+                obj = mat(req[name], req[form])
+                if key is not None:
+                    shared[key] = (obj, 1)
+            comp[name] = obj
+        args = [comp['plate']]
+        for name in ('mjd', 'fiber'):
+            if name in comp:
+                kw[name] = comp[name]
+        # what the request MEANS is what was generated: a shared component that an earlier call corrupted is reported
+        # here and not handed to readspec again
+        for name, obj in comp.items():
+            now = np.asarray(obj).ravel().tolist()
+            want = req[name] if isinstance(req[name], list) else [req[name]]
+            if [int(x) for x in now] != [int(x) for x in want]:
+                out.fail('inputs-unmodified', 'the shared %s vector no longer holds the generated request (%s): %s'
+                         % (name, want, now), **ctx)
+                return
+        before = {}
+        for name, obj in comp.items():
+            if isinstance(obj, np.ndarray):
+                before[name] = (obj.dtype.str, obj.shape, obj.tobytes())
+            elif isinstance(obj, list):
+                before[name] = list(obj)
         nlog = len(self.append_log)
         with T.environment(env):
             r = S.readspec(*args, **kw)
+        # ---- the caller's request vectors are the caller's: byte-identical after the call
+        for name, snap in before.items():
+            obj = comp[name]
+            if isinstance(obj, np.ndarray):
+                same = (obj.dtype.str, obj.shape, obj.tobytes()) == snap
+                out.count('arrays_checked_unmodified')
+            else:
+                same = obj == snap and all(type(a) is type(b) for a, b in zip(obj, snap))
+            out.expect(same, 'inputs-unmodified',
+                       'readspec changed the %s vector it was given: generated as %s, now %s'
+                       % (name, req[name], obj.tolist() if isinstance(obj, np.ndarray) else obj), **ctx)
         # ---- bookkeeping of what this request exercised
         out.count('req_total')
         keys = [(p << 16) + m for p, m, f in trip]
@@ -539,6 +698,22 @@ class C16(Check):
                 nm[f[0]] = nm.get(f[0], 0) + 1
             if any(nm[p] > 1 for p in byplate):
                 out.count('req_latest_multi_mjd')
+        # files of one call that share COEFF0/COEFF1 but not the pixel count, in plate-MJD (= read) order
+        meta = {(f[0] << 16) + f[1]: f for f in t['plates']}
+        rows_of = {}
+        for k in keys:
+            rows_of[k] = rows_of.get(k, 0) + 1
+        longest = {}
+        for k in sorted(rows_of):
+            f = meta[k]
+            sol = (f[4], f[5])
+            if sol in longest and f[3] < longest[sol]:
+                out.count('req_same_solution_shorter_later')
+                if rows_of[k] >= 2:
+                    out.count('req_same_solution_shorter_later_multirow')
+            elif sol in longest and f[3] > longest[sol]:
+                out.count('req_same_solution_longer_later')
+            longest[sol] = max(longest.get(sol, 0), f[3])
         if req['fiber'] is None:
             out.count('req_all_fibres')
             if t['kind'] == 'boss':
@@ -581,10 +756,11 @@ class C16(Check):
             obs = []
             for i in range(n):
                 fi = int(d['file'][i])
-                if not d['valid'][i] or fi >= len(desc['files']):
+                byindex = {rc['index']: rc for rc in desc['files']}
+                if not d['valid'][i] or fi not in byindex:
                     out.fail('row-identity', 'flux row %d does not come from the requested tree' % i, **ctx)
                     return
-                obs.append((desc['files'][fi]['plate'], desc['files'][fi]['mjd'], int(d['fibre'][i])))
+                obs.append((byindex[fi]['plate'], byindex[fi]['mjd'], int(d['fibre'][i])))
             if not out.expect(sorted(obs) == sorted(trip), 'row-identity',
                               'all-fibres request: the multiset of returned rows is not plates x fibres', **ctx):
                 return
@@ -614,10 +790,11 @@ class C16(Check):
                 d = T.image_decode(a[i, p])
                 if d['valid']:
                     fi = int(d['file'])
-                    src = desc['files'][fi] if fi < len(desc['files']) else (
-                        decoy['files'][fi - DECOY_BASE] if decoy and 0 <= fi - DECOY_BASE < len(decoy['files']) else None)
+                    src = {rc['index']: rc for rc in desc['files']}.get(fi)
+                    other = {rc['index']: rc for rc in decoy['files']}.get(fi) if decoy else None
                     got = 'file #%d (%s plate %s mjd %s) HDU %d fibre %d pixel %d' % (
-                        fi, 'DECOY tree' if fi >= DECOY_BASE else 'tree', src and src['plate'], src and src['mjd'],
+                        fi, 'tree' if src else 'the OTHER (decoy/twin) tree', (src or other or {}).get('plate'),
+                        (src or other or {}).get('mjd'),
                         int(d['hdu']), int(d['fibre']), int(d['pixel']))
                     same_row = (fi == fidx[i] and int(d['fibre']) == fibs[i] and int(d['hdu']) == T.IMAGE_HDU[name])
                 else:
